@@ -360,7 +360,7 @@ def rule_wiring(ctx, p: Project):
     ctx.ob(rule, "w_tilde source", okw, where=fac, node=wt_paths[0].node if wt_paths else fac.node, construct="; ".join(sorted(set(detw)))[:200],
            message="the w-tilde object must be the preloaded one when present and the dataset's own otherwise")
     # decision: only settings / preloads.use_w_tilde / object kinds
-    tests = {t for q in rets for t, _ in q.conds}
+    tests = {paths.canon_test(t) for q in rets for t, _ in q.conds}
     ctx.ob(rule, "use_w_tilde sources", tests <= allowed, where=fac, node=fac.node, construct=f"conditions {sorted(tests - allowed) or sorted(tests)}"[:300],
            message="the formalism may depend only on settings.use_w_tilde, preloads.use_w_tilde and the kinds of linear objects")
     ok = bool(wt_paths) and all(q.holds("settings.use_w_tilde") is True for q in wt_paths)
